@@ -31,6 +31,8 @@ Ev(e) ==
        /\ UNCHANGED <<fds, owner, cur>>
   ELSE IF e.ev = "end" /\ e.op = "new" THEN
        /\ Chk(fds = {}, "fd_leak")
+       \* a stream that cannot be set up is reported as an error
+       /\ Chk(e.result = "ok" => (e.size > 0 /\ e.size % 4096 = 0 /\ e.size % e.elem = 0), "bad_size_accepted")
        /\ IF e.result = "ok"
           THEN /\ Chk(\E r \in {p.r : p \in parts \ cur.before} : TwoHalves(r, e.size), "halves_not_aliased")
                /\ owner' = [s \in DOMAIN owner \cup {e.slot} |->
